@@ -480,3 +480,21 @@ func WaitContext(ctx context.Context, d time.Duration) error {
 		return ctx.Err()
 	}
 }
+
+// Peek reports what the remote end has produced so far without blocking:
+// the unread bytes, whether the remote closed its write side, and whether the
+// stream was reset.
+func (s *Stream) Peek() (data []byte, eof bool, reset bool) {
+	s.in.mu.Lock()
+	defer s.in.mu.Unlock()
+	return append([]byte(nil), s.in.buf...), s.in.eof, s.in.reset
+}
+
+// Drain removes and returns the unread bytes.
+func (s *Stream) Drain() []byte {
+	s.in.mu.Lock()
+	defer s.in.mu.Unlock()
+	out := s.in.buf
+	s.in.buf = nil
+	return out
+}
